@@ -86,7 +86,18 @@ impl Completion for Rec {
             show_props(span.props()),
             show_extent(span.extent()),
         );
-        self.1.lock().unwrap().push(line);
+        let first = {
+            let mut log = self.1.lock().unwrap();
+            let tag = format!("({} ", self.0);
+            let first = !log.iter().any(|l| l.starts_with(&tag));
+            log.push(line);
+            first
+        };
+        // a completion may fail AFTER it has delivered (its sink panics): recorders whose id is a multiple of three do,
+        // the first time they are called. The guard was consumed by the call: nothing completes it a second time.
+        if first && self.0 != 0 && self.0 % 3 == 0 {
+            panic!("scripted completion panic");
+        }
     }
 }
 
@@ -272,13 +283,17 @@ fn run_ops<K: Clock>(clk: K, enabled: bool, ops: &[Sexp]) -> Option<String> {
                 g = Some(cur.with_completion(AnyComp::of(&ad, recs[i].as_ref()?)?));
                 in_force = ad;
             }
-            ("complete", 0) => rets.push(cur.complete()),
+            // (a completion that panics after delivering did complete the span: `true`)
+            ("complete", 0) => rets.push(hcommon::catch(move || cur.complete()).unwrap_or(true)),
             ("cwith", _) => {
                 let (_, ad) = comp_spec(a)?;
-                rets.push(cur.complete_with(AnyComp::of(&ad, recs[i].as_ref()?)?));
+                let with = AnyComp::of(&ad, recs[i].as_ref()?)?;
+                rets.push(hcommon::catch(move || cur.complete_with(with)).unwrap_or(true));
                 in_force = ad;
             }
-            ("drop", 0) => drop(cur),
+            ("drop", 0) => {
+                let _ = hcommon::catch(move || drop(cur));
+            }
             _ => return None,
         }
         if let Some(g) = &g {
